@@ -3,6 +3,12 @@ package common
 // C11 (decoder half) — whatever bytes arrive, ReadString returns a value or an
 // error without panicking, gives up at end-of-stream, and allocates memory in
 // proportion to the bytes received (<= 256 KiB + 16 x input length).
+//
+// Every input is handed to the decoder twice: in one piece, and delivered
+// according to a generated pattern (wire.Delivery: one byte at a time, drawn
+// chunk sizes, (0, nil) results, end-of-stream reported with the last bytes);
+// the same oracles hold under every delivery. Enumerations derive the pattern
+// from the input bytes (wire.DeliveryFor).
 
 import (
 	"fmt"
@@ -18,6 +24,7 @@ type c11dStr struct {
 	Seed uint64     `json:"seed"`
 	Raw  bool       `json:"raw"`  // input is Fill(seed, len) itself instead of a mutated valid encoding
 	Muts []wire.Mut `json:"muts"`
+	Dlv  wire.Delivery `json:"dlv"` // second delivery of the same bytes
 }
 
 func (c c11dStr) input() (in []byte, consistent bool) {
@@ -48,7 +55,7 @@ func c11dStrRun(c c11dStr, v *vlib.Verdict) {
 		v.Label("trailing-bytes")
 	}
 	var err error
-	wire.DecoderCall(v, "common.ReadString", in, func(st *wire.Stream) { _, _, err = ReadString(st) })
+	wire.DecoderCallBoth(v, "common.ReadString", in, c.Dlv, func(st *wire.Stream) { _, _, err = ReadString(st) })
 	if v.OK() {
 		v.Label(map[bool]string{true: "returned-value", false: "returned-error"}[err == nil])
 	}
@@ -56,7 +63,7 @@ func c11dStrRun(c c11dStr, v *vlib.Verdict) {
 
 func TestVerifC11DecReadString(t *testing.T) {
 	vlib.Drive(t, vlib.Spec[c11dStr]{ID: "C11", Quick: 8000, Run: c11dStrRun, Gen: func(t *rapid.T) c11dStr {
-		c := c11dStr{Seed: rapid.Uint64().Draw(t, "seed"), Raw: rapid.IntRange(0, 2).Draw(t, "raw") == 0}
+		c := c11dStr{Seed: rapid.Uint64().Draw(t, "seed"), Raw: rapid.IntRange(0, 2).Draw(t, "raw") == 0, Dlv: wire.DrawDelivery(t)}
 		if c.Raw {
 			c.Len = rapid.IntRange(0, 600).Draw(t, "rawlen")
 		} else {
@@ -77,7 +84,7 @@ func TestVerifC11DecReadStringSweep(t *testing.T) {
 		in := append([]byte{byte(c.LenByte)}, vlib.Fill(uint64(c.LenByte), c.Have)...)
 		v.NonTrivial = c.Have != c.LenByte
 		v.Label(fmt.Sprintf("have%scl", map[bool]string{true: "==", false: "!="}[c.Have == c.LenByte]))
-		wire.DecoderCall(v, "common.ReadString", in, func(st *wire.Stream) { ReadString(st) })
+		wire.DecoderCallBoth(v, "common.ReadString", in, wire.DeliveryFor(wire.Hash64(in)), func(st *wire.Stream) { ReadString(st) })
 	}
 	if vlib.ReplayEnumerated(t, "C11", run) {
 		return
@@ -102,7 +109,7 @@ func TestVerifC11DecReadStringSweep(t *testing.T) {
 	if rec.Mine(0) {
 		vlib.Each(t, rec, sw{-1, 0}, func(c sw, v *vlib.Verdict) {
 		v.Label("empty-stream")
-			wire.DecoderCall(v, "common.ReadString", nil, func(st *wire.Stream) { ReadString(st) })
+			wire.DecoderCallBoth(v, "common.ReadString", nil, wire.DeliveryFor(3), func(st *wire.Stream) { ReadString(st) })
 		})
 	}
 	rec.SetExhaustive(true)
